@@ -22,13 +22,6 @@ struct PeekGraph : gg::FileGraph {
   const char* rawEdgeData() const { return edgeData; }
 };
 
-ref::RefGraph fromAdj(const Adj& a, unsigned width) {
-  ref::RefGraph g(a.size());
-  g.adj          = a;
-  g.edgeDataSize = width;
-  return g;
-}
-
 Adj decodedAdj(const ref::RefGraph& d) { return d.adj; }
 
 // decode `path` with the reference codec and compare with `exp`
@@ -51,6 +44,12 @@ void checkFile(Case& c, const std::string& path, const ref::RefGraph& exp, const
                     .kv("file_edges", d.numEdges()).kv("expected_edge_size", W).kv("file_edge_size", d.edgeDataSize).str());
     return;
   }
+  if (d.version == 2 && d.padBytes != 0) {
+    // the length of the file reveals a pad word that the version-2 layout does not have
+    c.violation(c.key("file-layout", cls), J().kv("what", "version 2 file written with a pad word after the destinations")
+                                               .kv("file_bytes", fileSize(path)).kv("pad_bytes_by_length", d.padBytes).str());
+    return;
+  }
   std::string w = diffWhole(c, exp, decodedAdj(d));
   if (!w.empty())
     c.violation(c.key("file-content", cls),
@@ -71,11 +70,6 @@ void checkReadBack(Case& c, const std::string& path, const ref::RefGraph& exp, c
   }
   if constexpr (!std::is_void<T>::value) {
     if (r.sizeEdges() && !r.rawEdgeData()) {
-      if (cls == "v2-odd") { // short file of the version-2 padding defect: fromFile finds no room for edge data
-        c.violation(c.key("readback", cls), J().kv("what", "library wrote the file, library read it back: edge data missing (edgeData == nullptr)")
-                                                 .kv("file_bytes", fileSize(path)).kv("edges", exp.numEdges()).kv("edge_size", (uint64_t)sizeof(T)).str());
-        return;
-      }
       // the failing component is the reader: same key as the fromFile component uses
       c.violation("C12:FileGraph.fromFile:edge-data-missing:width" + std::to_string(sizeof(T)),
                   J().kv("what", "file written by the library (toFile) has edge data, fromFile presents none (edgeData == nullptr)")
@@ -176,21 +170,30 @@ void writer_t(Case& c) {
 // ------------------------------------------------------------------ FileGraph copy + toFile
 template <typename T>
 void copy_t(Case& c) {
-  const bool padWord = c.variant & 1;        // v2/odd/data only: which convention the input file uses
-  const bool assign  = (c.variant >> 1) & 1; // copy assignment instead of copy construction
-  std::string cls    = c.v2class();
-  std::string in     = c.path("in");
-  ref::write_gr(in, c.g, c.version, c.width, padWord ? ref::V2Pad::Odd8 : ref::V2Pad::None);
+  const bool assign = (c.variant >> 1) & 1; // copy assignment instead of copy construction
+  std::string cls   = c.v2class();
+  std::string in    = c.path("in");
+  ref::write_gr(in, c.g, c.version, c.width, ref::V2Pad::None);
   PeekGraph a;
   a.fromFile(in);
   c.libReads++;
   if constexpr (!std::is_void<T>::value)
-    if (a.sizeEdges() && !a.rawEdgeData())
-      return; // reported by the fromFile component
-  // what the library presents for the input is the reference for "the copy is the same graph":
-  // independent of the padding convention of the input
-  Adj seen           = enumerateFileGraph<T>(a);
-  ref::RefGraph seenG = fromAdj(seen, c.width);
+    if (a.sizeEdges() && !a.rawEdgeData()) {
+      c.violation("C12:FileGraph.fromFile:edge-data-missing:width" + std::to_string(sizeof(T)),
+                  J().kv("what", "reference-written file has edge data, fromFile presents none (edgeData == nullptr)")
+                      .kv("file_bytes", fileSize(in)).kv("edges", c.g.numEdges()).kv("version", c.version).str());
+      return;
+    }
+  // the source graph is the reference: input, copy, written file and read-back must all be it
+  Adj seen = enumerateFileGraph<T>(a);
+  {
+    std::string d = diffWhole(c, c.g, seen);
+    if (!d.empty()) {
+      c.violation(c.key("input-misread", cls), J().kv("what", "fromFile of the reference-written input").raw("diff", d).str());
+      return;
+    }
+  }
+  const ref::RefGraph& seenG = c.g;
   if (c.variant >= 4) {
     // no copy: toFile of the file-backed graph itself (what graph-convert does when a conversion has nothing to
     // change: "copy input to output")
@@ -230,11 +233,10 @@ void fromgraph_t(Case& c) {
   if constexpr (std::is_void<T>::value) {
     return;
   } else {
-    const bool padWord   = c.variant & 1;
     const bool voidInput = (c.variant >> 1) & 1; // structure-only input (gr2randomweightgr on an unweighted graph)
     std::string cls      = c.v2class();
     std::string in       = c.path("in");
-    ref::write_gr(in, c.g, c.version, voidInput ? 0 : c.width, padWord ? ref::V2Pad::Odd8 : ref::V2Pad::None);
+    ref::write_gr(in, c.g, c.version, voidInput ? 0 : c.width, ref::V2Pad::None);
     gg::FileGraph a;
     a.fromFile(in);
     c.libReads++;
